@@ -467,6 +467,13 @@ def run_life(seed, role, cause, point, blocked_consumer, restart=True):
                 n.feed(dpa.dump())
         elif cause == "dpr":
             n.feed(n.make("DPR", True, 2).dump())
+            if point == "closing":
+                # simultaneous disconnect: the peer also answers the DPR it has received (Closing drops anything but the DPA)
+                dprs = [m for m in frames_of(n) if n.classify(m) == "DPR"]
+                if dprs:
+                    dpa = n.make("DPA", True, 1)
+                    dpa.header.hop_by_hop, dpa.header.end_to_end = dprs[0].header.hop_by_hop, dprs[0].header.end_to_end
+                    n.feed(dpa.dump())
         elif cause == "eof":
             n.peer_close()
         elif cause == "refused":
@@ -490,6 +497,10 @@ def run_life(seed, role, cause, point, blocked_consumer, restart=True):
             problems.append("socket not closed")
         if cons is not None and not cons.done:
             problems.append("an application thread blocked in get_message() did not return")
+        if n.assoc is not None:
+            for nm, l in (("association lock", n.assoc.lock), ("delivery lock", n.assoc.postprocess_recv_messages_lock)):
+                if l.held and l.owner is not None and l.owner.done:
+                    problems.append(f"{nm} still held by finished thread {l.owner.name}")
         if restart and not problems:
             try:
                 n.start()
@@ -499,6 +510,122 @@ def run_life(seed, role, cause, point, blocked_consumer, restart=True):
             except BaseException as e:
                 problems.append(f"second start() failed: {type(e).__name__}: {e}")
         return ("; ".join(problems) if problems else None), {"end": end, "threads_ended_by_exception": dead}
+    finally:
+        sc.close_scenario()
+
+
+LIFE_PREEMPT = {"opcode": (), "line": ("recv_message_from_queue", "get_postprocess_recv_message", "get_message", "close", "set_closed_state",
+                                       "get_next_state", "_run")}
+
+
+def life_verdict(sc, cons, end):
+    n = sc.n
+    problems = []
+    if isinstance(end, str) and end.startswith(("deadlock", "Step")):
+        problems.append(end[:400])
+    if n.state() != "Closed":
+        problems.append(f"state is {n.state()}, not Closed")
+    alive = [t.name for t in sc.s.threads if not t.done and not t.name.startswith("consumer")]
+    if alive:
+        problems.append(f"threads still alive: {alive} ({sc.s.describe_blocked()[:300]})")
+    if not n.sock.closed or (n.listen is not None and not n.listen.closed):
+        problems.append("socket not closed")
+    stuck = [c.name for c in cons if not c.done]
+    if stuck:
+        problems.append(f"application thread(s) blocked in get_message() did not return: {stuck}")
+    return problems
+
+
+def run_life_sweep(victim, k, cause="eof", seed=1):
+    """One-preemption sweep over the teardown: the victim thread (worker / consumer) is stopped after k line-level
+    steps, the connection then ends completely (transport + state machine threads run to the end), then everything
+    runs freely.  Two consumers are blocked in get_message()."""
+    sc = Scenario("client", seed * 3, preempt=LIFE_PREEMPT)
+    try:
+        if not sc.open():
+            return "connection did not open", {"ended": True}
+        n, s = sc.n, sc.s
+        a = n.assoc
+        got = {0: [], 1: []}
+        cons = [s.spawn(f"consumer{c}", lambda c=c: got[c].append(n.d.get_message())) for c in range(2)]
+        tr = [t for t in s.threads if t.name == "transport_layer_thread"][-1]
+        wk = [t for t in s.threads if t.name == "recv_message_monitor"][-1]
+        psm = n.psm_thread
+
+        def solo(ts, cond, limit=6000):
+            for _ in range(limit):
+                if cond():
+                    return True
+                go = [t for t in ts if s.enabled(t) == "go"]
+                if not go:
+                    return cond()
+                s.step(go[0])
+            return cond()
+        waiting = lambda c: c.done or (c.pending is not None and c.pending[0] == "wait" and not c.pending[1].flag)
+        solo(cons, lambda: all(waiting(c) for c in cons))
+        at_select = lambda: tr.pending is not None and tr.pending[0] == "select" and not n.sock.inbox
+        m1 = n.make("REQ", True, 1)
+        n.feed(m1.dump())
+        ended = False
+        if victim == "worker":
+            solo([tr], lambda: at_select() and a.transport._recv_data_available.flag)
+            v = wk
+        else:
+            solo([tr, wk, psm], lambda: len(a.postprocess_recv_messages.items) >= 1 and n.at_ticker(psm))
+            v = cons[0]
+        if victim == "psm":
+            # the state machine thread is the victim: the cause first, then k steps of the tick that takes it
+            solo([tr, wk, psm], lambda: len(a.postprocess_recv_messages.items) >= 1 and n.at_ticker(psm))
+            if cause == "eof":
+                n.peer_close()
+                solo([tr], lambda: a.transport._stop_threads)
+            else:
+                n.feed(n.make("DPR", True, 2).dump())
+                solo([tr, wk], lambda: len(a._recv_messages.items) >= 1 and wk.pending[0] == "wait")
+            v = psm
+        for i in range(k):
+            e = s.enabled(v)
+            if v.done or e is None or (victim == "worker" and i > 0 and v.pending[0] == "wait" and not a.transport._recv_data_available.flag):
+                ended = True
+                break
+            if e == "timer" and victim != "psm":
+                ended = True
+                break
+            s.step(v, fire_timeout=(e == "timer"))
+        # the connection ends
+        if victim == "psm":
+            pass
+        elif cause == "eof":
+            n.peer_close()
+        else:
+            n.feed(n.make("DPR", True, 2).dump())
+        others = [tr, psm] if victim == "worker" else [tr, wk, psm] if victim == "consumer" else [wk] + cons
+        fired = 0
+        for _ in range(6000):
+            if psm.done and victim != "psm":
+                break
+            go = [t for t in others if s.enabled(t) == "go" and not s.is_idle(t)]
+            if go:
+                s.step(go[0])
+                continue
+            tm = [t for t in others if s.enabled(t) == "timer"]
+            if not tm or fired >= 8:
+                break
+            fired += 1
+            s.step(min(tm, key=lambda x: x.deadline), fire_timeout=True)
+        solo([v], lambda: v.done)                   # the victim resumes first, then everybody
+        try:
+            sc.run(until=lambda: all(t.done for t in s.threads), limit=30000)
+            end = sc.settle(limit=6000, timer_rounds=12)
+        except vsched.Deadlock as e:
+            end = "deadlock: " + str(e)
+        except (vsched.StepLimit, vsched.StepHang) as e:
+            end = type(e).__name__ + ": " + str(e)
+        problems = life_verdict(sc, cons, end)
+        for nm, l in (("association lock", a.lock), ("delivery lock", a.postprocess_recv_messages_lock)):
+            if l.held and l.owner is not None and l.owner.done:
+                problems.append(f"{nm} still held by finished thread {l.owner.name}")
+        return ("; ".join(problems) if problems else None), {"ended": ended, "end": end, "threads_ended_by_exception": n.dead_threads()}
     finally:
         sc.close_scenario()
 
